@@ -96,17 +96,36 @@ func c11Same(a, b c11Obs, tag string) {
 	v.Assert(a.ast == b.ast, "C11/ast"+tag)
 }
 
-// ZZC11Order: run under the engine's nondeterministic map-iteration mode:
-// every order of every range-over-map is a path; the same operations on two
-// fresh objects (orders chosen independently) must give the same results.
+// ZZC11Order: the same operations on two fresh objects, the first under
+// insertion order at every range-over-map, the second with a forced different
+// order (all reversed, all rotated, or reversed/rotated at exactly one range
+// site): results must be equal. Natively (replay) the run is repeated under
+// Go's randomised order instead.
 func ZZC11Order() {
 	ci := v.Choose(0, len(c11Cases)-1)
 	c := c11Cases[ci]
 	doc := c.docs[v.Choose(0, len(c.docs)-1)]
 	v.Observe("schema", c.root)
 	v.Observe("doc", doc)
+	v.MapOrder(0, 0)
 	a := c11Run(c, doc)
+	sites := v.MapSites()
+	if !v.IsSymbolic() {
+		for i := 0; i < 300; i++ {
+			c11Same(a, c11Run(c, doc), "/map-order")
+		}
+		return
+	}
+	mode := v.Choose(1, 4)
+	site := 0
+	if mode >= 3 {
+		site = v.Choose(0, sites-1)
+	}
+	v.Observe("mode", mode)
+	v.Observe("site", site)
+	v.MapOrder(mode, site)
 	b := c11Run(c, doc)
+	v.MapOrder(0, 0)
 	c11Same(a, b, "/map-order")
 	v.Reach("C11/order")
 }
